@@ -65,7 +65,7 @@ func genGroup(T *kernel.Tape, name string, depth int, budget *int) *egGroup {
 		f := &egFn{name: fmt.Sprintf("%s.f%d", name, i), parent: g}
 		f.outcome = T.Pick(3, 2, 3)
 		if f.outcome == 2 {
-			f.pkind = T.Draw(9)
+			f.pkind = T.Draw(12)
 		}
 		if depth < 2 && T.Bool(1, 4) {
 			f.child = genGroup(T, f.name+".g", depth+1, budget)
@@ -100,6 +100,12 @@ func panicWith(kind int, name string) {
 		_ = s[idx]
 	case 8:
 		panic(&egStruct{9, name})
+	case 9: // a panic value that prints very long
+		panic("big panic in " + name + " " + strings.Repeat("x", 9000))
+	case 10:
+		panic(errors.New("big error in " + name + " " + strings.Repeat("y", 70000)))
+	case 11:
+		panic(fmt.Errorf("%w: %s", egSentinel, strings.Repeat("z", 8170)+name))
 	}
 }
 
@@ -123,6 +129,12 @@ func panicText(kind int, name string) []string {
 		return []string{"index out of range"}
 	case 8:
 		return []string{"0x"} // a pointer prints as an address
+	case 9:
+		return []string{"big panic in " + name}
+	case 10:
+		return []string{"big error in " + name}
+	case 11:
+		return []string{"sentinel: zzzz"}
 	}
 	return nil
 }
